@@ -140,9 +140,9 @@ Settle == stable >= K => TreeOK
 NoFlap == [][(stable >= K /\ stable' >= K) => [n \in Nodes |-> ns'[n].pst] = [n \in Nodes |-> ns[n].pst]]_vars
 
 \* edge emission for the replay on real instances
-Proj == [pst |-> [n \in Nodes |-> ns[n].pst], ppi |-> [n \in Nodes |-> ns[n].ppi], gmid |-> [n \in Nodes |-> ns[n].gm[6]],
+Proj == [pst |-> [n \in Nodes |-> ns[n].pst], ppi |-> [n \in Nodes |-> ns[n].ppi], gmid |-> [n \in Nodes |-> ns[n].gm[6]], gm |-> [n \in Nodes |-> ns[n].gm],
          steps |-> [n \in Nodes |-> ns[n].steps]]
-ProjP == [pst |-> [n \in Nodes |-> ns'[n].pst], ppi |-> [n \in Nodes |-> ns'[n].ppi], gmid |-> [n \in Nodes |-> ns'[n].gm[6]],
+ProjP == [pst |-> [n \in Nodes |-> ns'[n].pst], ppi |-> [n \in Nodes |-> ns'[n].ppi], gmid |-> [n \in Nodes |-> ns'[n].gm[6]], gm |-> [n \in Nodes |-> ns'[n].gm],
           steps |-> [n \in Nodes |-> ns'[n].steps]]
 View == <<ns, net, didB, didA, rc, armed, stable, cut, silent, faulted>>
 Emit == PrintT(<<"E", ToJson([hist |-> hist', exp |-> ProjP])>>)
